@@ -402,6 +402,15 @@ class SecopClient(ProxyClient):
                     break
                 except Exception:
                     # print(formatExtendedTraceback())
+                    if self.io and not self._running:
+                        # failed before the worker threads were started (no or bad answer to the
+                        # identification): forget this transport, else the next connect() would
+                        # take the client for connected and do nothing
+                        try:
+                            self.io.disconnect()
+                        except Exception:
+                            pass
+                        self.io = None
                     if time.time() > deadline:
                         # stay online for now, if activated
                         self._set_state(self.online and self.activate)
